@@ -26,6 +26,9 @@ STMTS = [
     '-x;', 'x++;', '--x;', 'x = y++;', 'x = sizeof(y);', 'x = sizeof(int);', 'x = 1 + 2;', 'x = y + 1;', 'x = (int)y + (int)z;',
     'x = -(y + z);', 'x = !(y + z);', 'x = -(int)(y + z);', 'x = -(int)(long)y;', 'x = +(long)(int)y;', '(int)(long)x++;', 'x = (int)(long)y + z;', 'x = (long)(int)y++;', 'x = -(int)(y, z);', 'x = +(int)-y;', 'x = - - -y;', 'x = +(int)(y);', 'x = (int)(long)y;', 'x = y * (int)z;',
     'x = !(y++);', '-(y++);', '!(y++);', 'x = !(-y);', 'x = sizeof(-y);', 'x = !(!(y++));', 'x = -(!y);', 'x = !(int)(y++);', 'x = !(int)-(long)y;', '+(--y);', 'x = sizeof(y++);',
+    # expressions of every kind in statement position, with and without an effect inside, bare / labelled / cast / in a comma
+    'x ? (y = z) : (z = y);', 'x ? y++ : z--;', 'x ? y : z;', 'L1: x ? (y = z) : (z = y);', '(int)(x ? y++ : z);', 'x ? y++ : z, y = z;',
+    'a[x++];', 'a[x] ;', '(y = z) + x;', 'x + (y = z);', '(int)(y = z);', 'x, y++;', 'L1: (int)y++;', '(y++, z);', 'x == (y = z);', '&x;', '*p;', 's.f;', 'sizeof(x++);',
     'x = f(y);', 'f(x);', 'x = y ? z : 1;', 'x = a[1];', '*p = x;', 'x = *p;', 'x = y = z;', 'x = (y = z);',
     'x = (y, z);', 'int q;', 'int q = 3;', 'int r[2];', 'return x;', 'return x + y;', 'return f(x);', 'break;', 'continue;', ';',
     '{ x = y; }', '{ }', 'goto L2;', 'assert(x < 1);', 'assume(x < 1);', 'x = -1;', 'x = +y;', 'x = --y;', 'typedef int T;',
